@@ -546,6 +546,71 @@ def builders(variant, layout, seed, sections=None):
             CH.find_plateaus(freq_log('int64', 'ms'), atol=sc.scalar(0.1, unit='Hz/ms'), min_n_points=3))
         add('chopper.filter_in_phase', CH.filter_in_phase, CH.collapse_plateaus(mk_plat()),
             reference=sc.scalar(np.array(14.0).astype(dtf)[()], unit='Hz', dtype=dtf), rtol=sc.scalar(np.array(0.01).astype(dtf)[()], dtype=dtf))
+        # ---- SPELLINGS of the scalar arguments: every form a caller can write the same quantity in, the accepted ones and
+        #      the ones the function refuses (an argument must be unchanged - values, dtype, dims AND unit - after a refusal
+        #      too; a 'usability' conversion of a refused spelling is where a write to the caller's object hides)
+        rs_ = Rng(seed + 11)
+        n_seed = int(rs_.r.integers(1, 6))
+        COUNT_SPELLINGS = {
+            'python int': lambda n: n, 'numpy int': lambda n: np.int64(n), 'python float': lambda n: float(n),
+            'index': lambda n: sc.index(n), 'int64 unit=None': lambda n: sc.scalar(n, unit=None),
+            'int32 unit=None': lambda n: sc.scalar(n, unit=None, dtype='int32'),
+            'float64 unit=None': lambda n: sc.scalar(float(n), unit=None),
+            'int64 dimensionless': lambda n: sc.scalar(n), 'float64 dimensionless': lambda n: sc.scalar(float(n), unit='dimensionless'),
+            'float32 dimensionless': lambda n: sc.scalar(float(n), unit='dimensionless', dtype='float32'),
+            'int64 counts': lambda n: sc.scalar(n, unit='counts'),
+            '1-element array unit=None': lambda n: sc.array(dims=['n'], values=[n], unit=None),
+            '1-element array dimensionless': lambda n: sc.array(dims=['n'], values=[n], unit='dimensionless'),
+        }
+        for sp, mk in COUNT_SPELLINGS.items():
+            for n in sorted({3, n_seed}):
+                add(f'chopper.find_plateaus[min_n_points: {sp}, n={n}]', CH.find_plateaus, freq_log(),
+                    atol=sc.scalar(0.1, unit='Hz/s'), min_n_points=mk(n))
+        ATOL_SPELLINGS = {
+            'float64 Hz/s': lambda: sc.scalar(0.1, unit='Hz/s'), 'float32 Hz/s': lambda: sc.scalar(0.1, unit='Hz/s', dtype='float32'),
+            'int64 Hz/s': lambda: sc.scalar(1, unit='Hz/s'), 'mHz/s': lambda: sc.scalar(100.0, unit='mHz/s'),
+            'Hz/ms': lambda: sc.scalar(1e-4, unit='Hz/ms'), 'with variance': lambda: sc.scalar(0.1, variance=0.01, unit='Hz/s'),
+            'dimensionless': lambda: sc.scalar(0.1), 'unit=None': lambda: sc.scalar(0.1, unit=None), 'wrong unit': lambda: sc.scalar(0.1, unit='Hz'),
+            'python float': lambda: 0.1, '1-element array': lambda: sc.array(dims=['a'], values=[0.1], unit='Hz/s'),
+            'seeded': lambda: sc.scalar(float(rs_.uniform(0.005, 3.0, 1)[0]), unit='Hz/s'),
+        }
+        for sp, mk in ATOL_SPELLINGS.items():
+            add(f'chopper.find_plateaus[atol: {sp}]', CH.find_plateaus, freq_log(), atol=mk(), min_n_points=sc.index(2), plateau_dim='p')
+
+        def rich_log():       # data with variances, a mask and a second coordinate (all of it caller-owned)
+            d = freq_log()
+            d.variances = np.full(d.sizes['time'], 0.01).astype(dtf)
+            d.masks['bad'] = sc.array(dims=['time'], values=[False] * (d.sizes['time'] - 1) + [True])
+            d.coords['temperature'] = sc.array(dims=['time'], values=np.linspace(290.0, 291.0, d.sizes['time']), unit='K')
+            return d
+        add('chopper.find_plateaus[data with variances, mask, extra coord]', CH.find_plateaus, rich_log(), atol=sc.scalar(0.1, unit='Hz/s'),
+            min_n_points=2)
+        add('chopper.find_plateaus[no plateau]', CH.find_plateaus, freq_log(), atol=sc.scalar(0.1, unit='Hz/s'), min_n_points=100)
+        add('chopper.collapse_plateaus[data with variances, mask, extra coord]', CH.collapse_plateaus,
+            CH.find_plateaus(rich_log(), atol=sc.scalar(0.1, unit='Hz/s'), min_n_points=2))
+        add('chopper.collapse_plateaus[no plateau]', CH.collapse_plateaus,
+            CH.find_plateaus(freq_log(), atol=sc.scalar(0.1, unit='Hz/s'), min_n_points=100))
+        add('chopper.collapse_plateaus[coord name refused]', CH.collapse_plateaus, mk_plat(), coord='no-such-coord')
+        add('chopper.collapse_plateaus[other plateau dim, coord as keyword]', CH.collapse_plateaus,
+            CH.find_plateaus(freq_log(), atol=sc.scalar(0.1, unit='Hz/s'), min_n_points=sc.index(2), plateau_dim='p'), coord='time')
+        REF_SPELLINGS = {
+            'float64 Hz': lambda: sc.scalar(14.0, unit='Hz'), 'float32 Hz': lambda: sc.scalar(14.0, unit='Hz', dtype='float32'),
+            'int64 Hz': lambda: sc.scalar(14, unit='Hz'), 'kHz': lambda: sc.scalar(0.014, unit='kHz'), '1/s': lambda: sc.scalar(14.0, unit='1/s'),
+            'with variance': lambda: sc.scalar(14.0, variance=0.01, unit='Hz'),
+            'dimensionless': lambda: sc.scalar(14.0), 'unit=None': lambda: sc.scalar(14.0, unit=None), 'python float': lambda: 14.0,
+            'zero': lambda: sc.scalar(0.0, unit='Hz'), 'seeded': lambda: sc.scalar(float(rs_.r.choice([7.0, 14.0, 28.0, 56.0, 13.9])), unit='Hz'),
+        }
+        RTOL_SPELLINGS = {
+            'float64 dimensionless': lambda: sc.scalar(0.01), 'float32 dimensionless': lambda: sc.scalar(0.01, dtype='float32'),
+            'int64 dimensionless': lambda: sc.scalar(0), 'unit=None': lambda: sc.scalar(0.01, unit=None), 'percent': lambda: sc.scalar(1.0, unit='percent'),
+            'python float': lambda: 0.01, 'with variance': lambda: sc.scalar(0.01, variance=1e-6),
+            'per element': lambda: sc.array(dims=['plateau'], values=[0.01, 0.5]),
+        }
+        mk_coll = lambda: CH.collapse_plateaus(mk_plat())
+        for sp, mk in REF_SPELLINGS.items():
+            add(f'chopper.filter_in_phase[reference: {sp}]', CH.filter_in_phase, mk_coll(), reference=mk(), rtol=sc.scalar(0.01))
+        for sp, mk in RTOL_SPELLINGS.items():
+            add(f'chopper.filter_in_phase[rtol: {sp}]', CH.filter_in_phase, mk_coll(), reference=sc.scalar(14.0, unit='Hz'), rtol=mk())
 
     guard('disk chopper and filtering', sec_disk_chopper_and_filtering)
     def sec_peaks():
@@ -617,6 +682,80 @@ def builders(variant, layout, seed, sections=None):
         w2 = sc.array(dims=['d', 'range'], values=(np.array([[1.2, 1.8], [2.9, 3.5]]) * f).astype(dt), unit=unit, dtype=dt)
         add('peaks.fit_peaks[explicit windows]', P.fit_peaks, da.copy(), peak_estimates=est.copy(), windows=w2,
             background=M.PolynomialModel(degree=1), peak=(M.LorentzianModel(), 'gaussian'))
+        # ---- explicit 2-d windows: classes of edge VALUES relative to the data range [0.5, 4.5] and to each other (label-based
+        #      slicing accepts edges outside the data), x dim order x order of the estimates x dtype / unit of the window array,
+        #      with every optional argument given as a caller-owned object.  A clamp / sort / separation written into the
+        #      caller's array only shows when it changes a value, i.e. for edges outside the data, overlapping or unordered windows.
+        rw = Rng(seed + 5)
+        u_ = rw.uniform(0.1, 2.0, 4)
+        WINDOW_CLASSES = {
+            'edges-outside-data': [[-1.0, 1.8], [2.9, 9.0]],
+            'lower-edge-outside': [[0.2, 1.8], [2.9, 3.5]],
+            'overlapping': [[1.0, 3.4], [1.4, 3.6]],
+            'overlapping,outside': [[-2.0, 3.4], [1.4, 7.0]],
+            'window-beyond-data': [[7.0, 9.0], [2.9, 3.5]],
+            'reversed-edges': [[1.8, 1.2], [2.9, 3.5]],
+            'infinite-edges': [[-np.inf, 1.8], [2.9, np.inf]],
+            'seeded': [[1.5 - u_[0], 1.5 + u_[1]], [3.2 - u_[2], 3.2 + u_[3]]],
+        }
+        names_ = list(WINDOW_CLASSES)
+        if layout != '1d':       # the layout axis does not exist for peaks: the other layouts carry further seeded windows only
+            WINDOW_CLASSES = {'seeded': WINDOW_CLASSES['seeded']}
+        elif not (variant['dtype'] == 'float64' and variant['unit'] == 0):
+            # every class for the base variant; the other dtype / unit variants: out-of-range, seeded and one class chosen by the seed
+            WINDOW_CLASSES = {k: WINDOW_CLASSES[k] for k in names_ if k in ('edges-outside-data', 'seeded', names_[(seed + 3) % len(names_)])}
+
+        def window_array(vals, order=(0, 1), transposed=False, wdt=None, wunit=None):
+            v = np.array(vals, dtype='float64')[list(order)] * f
+            if wunit is not None:
+                v = sc.array(dims=['d', 'range'], values=v, unit=unit).to(unit=wunit).values
+            if transposed:
+                return sc.array(dims=['range', 'd'], values=v.T.astype(wdt or dt), unit=wunit or unit, dtype=wdt or dt)
+            return sc.array(dims=['d', 'range'], values=v.astype(wdt or dt), unit=wunit or unit, dtype=wdt or dt)
+        other_unit = 'nm' if unit == 'angstrom' else 'angstrom'
+        fp = lambda: P.FitParameters(guess_background_fraction=float(rw.uniform(0.2, 0.8, 1)[0]),
+                                     neighbor_separation_factor=float(rw.uniform(0.1, 0.9, 1)[0]))
+        fr = lambda: P.FitRequirements(min_p_value=0.001, max_peak_width_factor=1.5, min_peak_width_factor=0.5)
+        # every class in the plain form; the dim-order / estimate-order / parameter-object forms for the out-of-range class, the
+        # seeded class and one further class chosen by the seed (a fit costs ~0.1 s).  The aligned re-run (arguments converted
+        # to the units / dtypes of the traced copy=False conversions) is made for the out-of-range and seeded classes.
+        full_forms = {'edges-outside-data', 'seeded', names_[seed % len(names_)]}
+        for wc, vals in WINDOW_CLASSES.items():
+            na = {} if wc in ('edges-outside-data', 'seeded') else {'noalign': True}
+            add(f'peaks.fit_peaks[explicit windows: {wc}]', P.fit_peaks, da.copy(), peak_estimates=est.copy(), windows=window_array(vals),
+                background='linear', peak='gaussian', _opts=dict(na))
+            if wc not in full_forms:
+                continue
+            add(f'peaks.fit_peaks[explicit windows: {wc}, transposed, parameter objects]', P.fit_peaks, da.copy(), peak_estimates=est.copy(),
+                windows=window_array(vals, transposed=True), background=[M.PolynomialModel(degree=1), 'quadratic'],
+                peak=[M.GaussianModel(), M.LorentzianModel()], fit_parameters=fp(), fit_requirements=fr(), _opts={'noalign': True})
+            add(f'peaks.fit_peaks[explicit windows: {wc}, unsorted estimates]', P.fit_peaks, da.copy(), peak_estimates=sc.array(dims=['d'], values=est.values[::-1].copy(), unit=unit, dtype=dt),
+                windows=window_array(vals, order=(1, 0)), background='linear', peak='lorentzian', fit_parameters=fp(), _opts={'noalign': True})
+        for wc in ('edges-outside-data', 'seeded'):
+            if wc not in WINDOW_CLASSES:
+                continue
+            vals = WINDOW_CLASSES[wc]
+            if dt != 'float64':
+                add(f'peaks.fit_peaks[explicit windows: {wc}, float64 windows]', P.fit_peaks, da.copy(), peak_estimates=est.copy(),
+                    windows=window_array(vals, wdt='float64'), background='linear', peak='gaussian')
+            add(f'peaks.fit_peaks[explicit windows: {wc}, windows in {other_unit}]', P.fit_peaks, da.copy(), peak_estimates=est.copy(),
+                windows=window_array(vals, wunit=other_unit), background='linear', peak='gaussian')
+            add(f'peaks.fit_peaks[explicit windows: {wc}, data with mask]', P.fit_peaks,
+                da.assign_masks(m=da.coords['d'] > sc.scalar(np.array(4.2 * f).astype(dt)[()], unit=unit, dtype=dt)),
+                peak_estimates=est.copy(), windows=window_array(vals), background='linear', peak='gaussian')
+        # scalar window: wider than the data / estimates outside the data (the internal clipping and separation are active),
+        # optional arguments as caller-owned objects, the separation factor also as a Variable
+        wide = sc.scalar(np.array(float(rw.uniform(1.0, 9.0, 1)[0]) * f).astype(dt)[()], unit=unit, dtype=dt)
+        est_out = sc.array(dims=['d'], values=(np.array([0.2, 1.5, 3.2, 5.1]) * f).astype(dt), unit=unit, dtype=dt)
+        add('peaks.fit_peaks[scalar window wider than the data, parameter objects]', P.fit_peaks, da.copy(), peak_estimates=est.copy(),
+            windows=wide, background='linear', peak='gaussian', fit_parameters=fp(), fit_requirements=fr())
+        add('peaks.fit_peaks[scalar window, estimates outside the data]', P.fit_peaks, da.copy(), peak_estimates=est_out,
+            windows=win.copy(), background=('linear',), peak=('gaussian', 'pseudo_voigt'), fit_parameters=fp())
+        add('peaks.fit_peaks[scalar window, separation factor as a variable]', P.fit_peaks, da.copy(), peak_estimates=est.copy(),
+            windows=win.copy(), background='linear', peak='gaussian',
+            fit_parameters=P.FitParameters(neighbor_separation_factor=sc.scalar(np.array(0.2).astype(dt)[()], dtype=dt)))
+        add(f'peaks.fit_peaks[scalar window in {other_unit}]', P.fit_peaks, da.copy(), peak_estimates=est.copy(),
+            windows=win.to(unit=other_unit), background='linear', peak='gaussian')
         try:
             res = P.fit_peaks(da, peak_estimates=est, windows=win, background='linear', peak='gaussian')
             mk_res = lambda: P.fit_peaks(da, peak_estimates=est, windows=win, background='linear', peak='gaussian')
@@ -1029,7 +1168,7 @@ def run_calls(payload):
             rec = run_one(label, fn, args, kwargs, opts, args2)
             rec['combo'] = combo
             out.append(rec)
-            if b3 is None or fn is None or opts.get('norepeat') or j >= len(b3):
+            if b3 is None or fn is None or opts.get('norepeat') or opts.get('noalign') or j >= len(b3):
                 continue
             # the same entry point with the arguments converted to the units / dtypes that make its internal
             # copy=False conversions no-ops (derived by tracing those conversions)
